@@ -293,7 +293,7 @@ fn explore(ctx: &Ctx) {
          representative history of each merged state and additionally on all unmerged histories up to inmem_depth",
     );
     ctx.set("dont_care", json!(["contents of the node storage (garbage or not) — only kept in the state key", "which error an operation returns (any Err/panic on intact storage is a violation)"]));
-    let (nkeys, depth, mdepth) = ctx.pick((8usize, 4usize, 3u32), (10, 6, 4));
+    let (nkeys, depth, mdepth) = ctx.pick((8usize, 5usize, 3u32), (10, 6, 4));
     let keys = all_keys();
     ctx.set(
         "alphabet",
